@@ -162,7 +162,8 @@ ExpectHeader ==
 
 (* End of the work on the current list after feature f (restarting or mandatory).   *)
 EndOfList(f, b, lreq) ==
-  LET b2 == IF lreq THEN b ELSE b \cup {"Ready"} IN
+  (* ready only if the list had no mandatory feature AND no restart is required *)
+  LET b2 == IF lreq \/ Kind(f).rst THEN b ELSE b \cup {"Ready"} IN
   /\ IF "Ready" \in b2
      THEN Complete(b2) /\ UNCHANGED fresh /\ negotiated' = negotiated \cup {f}
      ELSE /\ UNCHANGED result /\ bits' = b2
